@@ -28,14 +28,13 @@ Definition ok_xmm (before after : list (Z * Z)) : bool :=
   list_eqb pair_eqb (firstn 8 before) (firstn 8 after).
 Definition xlist (x : xfile) : list (Z * Z) := map x (seq 0 16).
 Definition xof (l : list (Z * Z)) : xfile := fun i => nth i l (0, 0).
-(* 256-bit registers *)
-Definition yreg_eqb (a b : yreg) : bool := pair_eqb (fst a) (fst b) && pair_eqb (snd a) (snd b).
-Definition ylist (x : yfile) : list yreg := map x (seq 0 16).
-Definition yof (l : list yreg) : yfile := fun i => nth i l ((0, 0), (0, 0)).
-(* what must come back: all of ymm0-7 with AVX, bits 0-127 of xmm0-7 without *)
-Definition ok_ymm (avx : bool) (before after : list yreg) : bool :=
-  if avx then list_eqb yreg_eqb (firstn 8 before) (firstn 8 after)
-  else list_eqb pair_eqb (map fst (firstn 8 before)) (map fst (firstn 8 after)).
+(* vector registers as lists of eight 64-bit words *)
+Definition wlist_eqb (a b : list Z) : bool := list_eqb zeq a b.
+Definition vlist (x : vfile) : list (list Z) := map (fun r => map (x r) (seq 0 8)) (seq 0 16).
+Definition vof (l : list (list Z)) : vfile := fun r i => nth i (nth r l []) 0.
+(* what must come back: every architecturally visible word of registers 0-7 *)
+Definition ok_vec (level : nat) (before after : list (list Z)) : bool :=
+  list_eqb wlist_eqb (map (firstn (visible level)) (firstn 8 before)) (map (firstn (visible level)) (firstn 8 after)).
 
 (* ------------------------------------------------------------------ the tie's bookkeeping *)
 Fixpoint bad_indices {A} (f : A -> bool) (l : list A) (i : nat) : list nat :=
@@ -96,17 +95,17 @@ Definition shadow_ok (c : shadow_case) : bool :=
      end.
 
 (* arch-context case: xmm0-15 before, the clobber, and what the real pair left *)
-Record xmm_case := { xc_avx : bool; xc_before : list yreg; xc_clobber : list yreg; xc_after : list yreg }.
+Record xmm_case := { xc_level : nat; xc_before : list (list Z); xc_clobber : list (list Z); xc_after : list (list Z) }.
 Definition xmm_agrees (c : xmm_case) : bool :=
-  list_eqb yreg_eqb (ylist (arch_roundtrip_now (xc_avx c) (yof (xc_before c)) (fun _ => 0) (yof (xc_clobber c)))) (xc_after c).
-Definition xmm_ok (c : xmm_case) : bool := ok_ymm (xc_avx c) (xc_before c) (xc_after c).
+  list_eqb wlist_eqb (vlist (arch_roundtrip_now (xc_level c) (vof (xc_before c)) (fun _ => 0) (vof (xc_clobber c)))) (xc_after c).
+Definition xmm_ok (c : xmm_case) : bool := ok_vec (xc_level c) (xc_before c) (xc_after c).
 
 (* hook-call case: xmm0..15 when the stub calls the C wrapper, and when the wrapper returns, while a libc
    function reached from the hook overwrites every xmm register *)
 Record hook_xmm_case := { hx_hook : string; hx_before : list (Z * Z); hx_after : list (Z * Z) }.
 Definition w_ones : world :=
   {| w_regs := fun _ _ => 0; w_mem := fun _ _ => 0; w_zf := fun _ => false; w_glob := fun _ _ => 0;
-     w_xmm := fun _ _ => (18446744073709551615, 18446744073709551615); w_ctx := fun _ _ => 0; w_avx := true |}.
+     w_xmm := fun _ _ => (18446744073709551615, 18446744073709551615); w_ctx := fun _ _ => 0; w_level := 2 |}.
 Definition hook_xmm_agrees (c : hook_xmm_case) : bool :=
   list_eqb pair_eqb (firstn 8 (xlist (c_call_xmm w_ones (hx_hook c) 0 (xof (hx_before c))))) (firstn 8 (hx_after c)).
 Definition hook_xmm_ok (c : hook_xmm_case) : bool := ok_xmm (hx_before c) (hx_after c).
@@ -119,3 +118,57 @@ Definition stop_agrees (c : stop_case) : bool :=
   out_eqb (snd (run_op s (ORetStop (st_slot c)))) (st_obs c).
 Definition stop_ok (c : stop_case) : bool :=
   match st_obs c with URet _ w => word_eqb w (Real (st_expect c)) | _ => false end.
+
+(* --estimate-return case: like shadow_case, run with mcount_estimate_return set *)
+Fixpoint run_trace_est (n : nat) (s : st) (ops : list op) : list (out * nat * list word) :=
+  match ops with
+  | [] => []
+  | o :: t => let '(s1, u) := run_op_est s o in (u, List.length (rs s1), snapshot n s1) :: run_trace_est n s1 t
+  end.
+Definition est_agrees (c : shadow_case) : bool :=
+  list_eqb op_eqb (sc_ops c) (full 1 (sc_tree c))
+  && list_eqb obs_eqb (run_trace_est (sc_nslots c) st0 (sc_ops c)) (sc_obs c).
+(* the property: returns as in the native run, errno kept, and no slot ever holds anything but what the
+   program itself stored there *)
+Definition est_ok (c : shadow_case) : bool :=
+  ok_returns (sc_tree c) (map (fun o => fst (fst o)) (sc_obs c))
+  && forallb (fun b => b) (sc_errno c)
+  && forallb (fun o => forallb (fun w => negb (is_tramp w)) (tl (snd o))) (sc_obs c).
+
+(* thread-schedule case: call trees per thread, the interleaved (thread, operation) list the driver sent,
+   per step what libmcount did in that thread *)
+Fixpoint run_sched_trace (n : nat) (ss : nat -> st) (sched : list (nat * op)) : list (out * nat * list word) :=
+  match sched with
+  | [] => []
+  | (t, o) :: r => let '(s1, u) := run_op (ss t) o in
+                   (u, List.length (rs s1), snapshot n s1) :: run_sched_trace n (tupd ss t s1) r
+  end.
+Record sched_case := {
+  sd_trees : list (nat * call);
+  sd_sched : list (nat * op);
+  sd_obs : list (out * nat * list word);
+  sd_errno : list bool;
+  sd_nslots : nat
+}.
+Definition sched_agrees (c : sched_case) : bool :=
+  forallb (fun tc => list_eqb op_eqb (proj (fst tc) (sd_sched c)) (full 1 (snd tc))) (sd_trees c)
+  && list_eqb obs_eqb (run_sched_trace (sd_nslots c) (fun _ => st0) (sd_sched c)) (sd_obs c).
+Definition sched_ok (c : sched_case) : bool :=
+  forallb (fun tc => ok_returns (snd tc)
+                       (proj (fst tc) (combine (map fst (sd_sched c)) (map (fun o => fst (fst o)) (sd_obs c)))))
+          (sd_trees c)
+  && forallb (fun b => b) (sd_errno c).
+
+(* hook-call case with whole vector registers: registers 0..15 (8 words each) when the stub calls the C wrapper and
+   when it returns, while a libc stand-in reached from the hook overwrites every vector register and ends with
+   vzeroupper (bits 0-127 all ones, everything above zero) *)
+Record hook_vec_case := { hv_level : nat; hv_hook : string; hv_before : list (list Z); hv_after : list (list Z) }.
+Definition ones := 18446744073709551615.
+Definition hook_call_vec (level : nat) (f : string) (x : vfile) : vfile :=
+  let clobber : vfile := fun _ i => if Nat.ltb i 2 then ones else 0 in
+  if xmm_leaf f then x
+  else if xmm_wrapped f then arch_roundtrip_now level x (fun _ => 0) clobber
+  else clobber.
+Definition hook_vec_agrees (c : hook_vec_case) : bool :=
+  list_eqb wlist_eqb (firstn 8 (vlist (hook_call_vec (hv_level c) (hv_hook c) (vof (hv_before c))))) (firstn 8 (hv_after c)).
+Definition hook_vec_ok (c : hook_vec_case) : bool := ok_vec (hv_level c) (hv_before c) (hv_after c).
